@@ -166,7 +166,7 @@ PROPS = {
         "families": [("proposal", 96, 2500, "chain")],
         "gen": ["facts", "formulas"],
         "rule": "proposal: chain histories (real app, 1-5 validators) with hostile vote-extension payloads from >= 2 blocks or at least one content-changing mutation of the injected transaction; distinct = distinct step sequences",
-        "level_text": "Theorems over all extended commits and injected transactions: an honest proposal (derive, inject) is accepted whenever the commit validates; an accepted proposal's registrations, validator-set signatures and attestations are exactly the derivation from its own commit (nil-vs-empty slice shape included), so any differing element is rejected; the parallel lists PreBlocker indexes are aligned; registrations come only from commit votes of operators WITHOUT an address whose two signatures recover to one address (registered once, from own signatures); address recovery is only reached with signatures of >= 64 bytes (counterexample theorem for the pre-fix panic). Tie: the REAL handlers (PrepareProposal, ProcessProposal, ExtendVote with per-validator keyrings, VerifyVoteExtension, PreBlocker) run on generated histories with 22 kinds of hostile payloads, absent voters and 16 kinds of single-field mutations; monitors: honest proposals accepted and executed, content-changing mutations rejected, no panic anywhere, registered EVM addresses stable and equal to the operator key's address, every stored validator-set signature sent by the owner of its slot.",
+        "level_text": "Theorems over all extended commits and injected transactions: an honest proposal (derive, inject) is accepted whenever the commit validates; an accepted proposal's registrations, validator-set signatures and attestations are exactly the derivation from its own commit (nil-vs-empty slice shape included), so any differing element is rejected; the parallel lists PreBlocker indexes are aligned; registrations come only from commit votes of operators WITHOUT an address whose two signatures recover to one address (registered once, from own signatures); address recovery is only reached with signatures of >= 64 bytes (counterexample theorem for the pre-fix panic); an attestation changes only the slot(s) of its sender in the layout set and reaches it (counterexample theorem for the pre-fix layout by the last saved set). Tie: the REAL handlers (PrepareProposal, ProcessProposal, ExtendVote with per-validator keyrings, VerifyVoteExtension, PreBlocker) run on generated histories with 22 kinds of hostile payloads, absent voters, bursts of attestation requests, checkpoint changes and 16 kinds of single-field mutations; for EVERY block the lists injected by the real PrepareProposal are compared with the Lean model's derivation from the same commit (operators, addresses, timestamps as int64, signatures, attestations, snapshots, nil/empty shape); monitors: honest proposals accepted and executed, content-changing mutations rejected, no panic anywhere, registered EVM addresses stable and equal to the operator key's address, every stored validator-set signature and every stored oracle attestation sent by the owner of its slot (slot = position in the set of the snapshot's checkpoint), every attestation carried by a commit vote stored after the next block.",
         "level_note": "Trusted: Lean kernel; model Chain/Proposal.lean (JSON modelled only as nil/empty-preserving round trip; ECDSA recovery and baseapp.ValidateVoteExtensions are parameters); the harness never lets fewer than 2/3+ of the power carry verified extensions (CometBFT would not decide such a height). ExtendVoteHandler is the real one (verif hook injects an in-memory keyring).",
         "trusted": ["model Chain/Proposal.lean", "harness chain_test.go (commit construction as CometBFT would), fam_proposal_test.go"],
     },
